@@ -42,7 +42,10 @@ DerivePool == <<
   DCall("for_a", DPath(<<"m", "Un">>), <<"#[spec_un]">>, FALSE),
   DCall("for_d", DPath(<<"m", "leaf", "X">>), <<"::d::RecX", "::d::All">>, TRUE),
   DCall("for_d", DPath(<<"m", "PhT">>), <<"::d::RecPh">>, TRUE),
-  DCall("for_a", DPath(<<"m", "R">>), <<"#[spec_r]">>, FALSE) >>
+  DCall("for_a", DPath(<<"m", "R">>), <<"#[spec_r]">>, FALSE),
+  \* second registrations that land in the same map entry as an earlier one (attributes next to derives, derives twice)
+  DCall("for_a", DPath(<<"m", "R">>), <<"#[rec_r]">>, TRUE),
+  DCall("for_d", DPath(<<"m", "leaf", "X">>), <<"::d::SpecX2">>, FALSE) >>
 LsbRule == Rule(TPath(FALSE, <<"bitvec", "order", "Lsb0">>, <<>>), Ext("Lsb0", <<>>))
 DeriveBase == [Base EXCEPT !.has_compact_as = TRUE, !.subs = <<LsbRule>>]
 \* every 1- and 2-element selection of the pool (order of registration as listed), plus everything at once
